@@ -15,6 +15,11 @@
 //!       zones = id:ts,ts;id:ts...   temporal artifacts are written by the real TemporalIndexBuilder from
 //!       events whose payload field t (or core timestamp) holds the stamps; then TemporalPruner::apply_temporal_only
 //!       -> NONE | Z <sorted zone ids, comma separated | ->
+//!   tsite_select <t|timestamp> <op> <s|i> <hex literal> <zones, ids 0..n-1>
+//!       the same artifacts plus the .zones meta written by ZoneMeta::build_all/save, then the real
+//!       FieldSelector::select_for_segment on a filter that carries the strategy IndexPlanner::choose gives a
+//!       temporal field (= -> TemporalEq, IN -> FullScan, everything else -> TemporalRange)
+//!       -> Z <sorted zone ids | ->
 //!   tsite_all <hex string>
 //!       all of the above on one string literal; the pruner's instant is observed with Eq over single-stamp zones
 //!       -> PDT=..;PD=..;W=..;SN=..;F=..;PR=<instant(s) the pruner looked up | ? | NONE>
@@ -26,7 +31,14 @@ use serde_json::{json, Value};
 use snel_db::command::types::{Command, CompareOp, Expr, MaterializedQuerySpec};
 use snel_db::engine::core::filter::filter_group_builder::FilterGroupBuilder;
 use snel_db::engine::core::time::TemporalIndexBuilder;
+use snel_db::engine::core::read::index_strategy::IndexStrategy;
+use snel_db::engine::core::zone::selector::field_selector::FieldSelector;
+use snel_db::engine::core::zone::selector::pruner::enum_pruner::EnumPruner;
+use snel_db::engine::core::zone::selector::pruner::range_pruner::RangePruner;
+use snel_db::engine::core::zone::selector::pruner::xor_pruner::XorPruner;
 use snel_db::engine::core::zone::selector::pruner::{PruneArgs, TemporalPruner};
+use snel_db::engine::core::zone::selector::selector_kind::ZoneSelector;
+use snel_db::engine::core::zone::zone_meta::ZoneMeta;
 use snel_db::engine::core::zone::zone_artifacts::ZoneArtifacts;
 use snel_db::engine::core::zone::zone_plan::ZonePlan;
 use snel_db::engine::core::{ConditionEvaluatorBuilder, Event, FilterGroup, QueryPlan};
@@ -166,8 +178,8 @@ fn find_t_filter(groups: &[FilterGroup], want_op: Option<CompareOp>) -> Option<O
     None
 }
 
-/// Writes the temporal artifacts of the zones with the real TemporalIndexBuilder and runs the real pruner.
-fn prune_zones(col: &str, op: &CompareOp, val: &ScalarValue, zones: &[(u32, Vec<i64>)]) -> Result<Option<Vec<u32>>, String> {
+/// Writes the temporal artifacts of the zones with the real TemporalIndexBuilder (and the zone meta file).
+fn build_artifacts(col: &str, zones: &[(u32, Vec<i64>)]) -> Result<(tempfile::TempDir, String), String> {
     let c = ctx();
     let uid = c.rt.block_on(async { c.registry.read().await.get_uid("ev_dt") }).expect("uid");
     let base = tempfile::tempdir().expect("tmp");
@@ -203,16 +215,60 @@ fn prune_zones(col: &str, op: &CompareOp, val: &ScalarValue, zones: &[(u32, Vec<
             TemporalIndexBuilder::new(&uid, &seg_dir, Arc::clone(&c.registry)).build_for_zone_plans(&plans),
         );
         if r.is_err() { return Err("BUILDERR".into()); }
+        let metas = ZoneMeta::build_all(&plans);
+        if ZoneMeta::save(&uid, &metas, &seg_dir).is_err() { return Err("METAERR".into()); }
     }
+    Ok((base, uid))
+}
+
+fn ids_of(zs: Vec<snel_db::engine::core::CandidateZone>) -> Vec<u32> {
+    let mut ids: Vec<u32> = zs.iter().map(|z| z.zone_id).collect();
+    ids.sort();
+    ids.dedup();
+    ids
+}
+
+/// ... and runs the real pruner.
+fn prune_zones(col: &str, op: &CompareOp, val: &ScalarValue, zones: &[(u32, Vec<i64>)]) -> Result<Option<Vec<u32>>, String> {
+    let (base, uid) = build_artifacts(col, zones)?;
     let base_dir = base.path().to_path_buf();
     let pruner = TemporalPruner { artifacts: ZoneArtifacts { base_dir: &base_dir, caches: None } };
     let args = PruneArgs { segment_id: "00001", uid: &uid, column: col, value: Some(val), op: Some(op) };
-    Ok(pruner.apply_temporal_only(&args).map(|zs| {
-        let mut ids: Vec<u32> = zs.iter().map(|z| z.zone_id).collect();
-        ids.sort();
-        ids.dedup();
-        ids
-    }))
+    Ok(pruner.apply_temporal_only(&args).map(ids_of))
+}
+
+/// ... and runs the real field selector on a filter with the temporal strategy of the planner.
+fn select_zones(col: &str, op: &CompareOp, val: &ScalarValue, zones: &[(u32, Vec<i64>)]) -> Result<Vec<u32>, String> {
+    let (base, uid) = build_artifacts(col, zones)?;
+    let c = ctx();
+    let base_dir = base.path().to_path_buf();
+    let cmd = query("ev_dt", None, None, None);
+    let mut plan = c.rt.block_on(QueryPlan::build(&cmd, Arc::clone(&c.registry)));
+    plan.segment_base_dir = base_dir.clone();
+    let strategy = match op {
+        CompareOp::Eq => IndexStrategy::TemporalEq { field: col.to_string() },
+        CompareOp::In => IndexStrategy::FullScan,
+        _ => IndexStrategy::TemporalRange { field: col.to_string() },
+    };
+    let fg = FilterGroup::Filter {
+        column: col.to_string(),
+        operation: Some(op.clone()),
+        value: Some(val.clone()),
+        priority: 1,
+        uid: Some(uid.clone()),
+        index_strategy: Some(strategy),
+    };
+    let art = || ZoneArtifacts { base_dir: &base_dir, caches: None };
+    let sel = FieldSelector {
+        plan: &fg,
+        qplan: &plan,
+        caches: None,
+        range_pruner: RangePruner { artifacts: art() },
+        temporal_pruner: TemporalPruner { artifacts: art() },
+        enum_pruner: EnumPruner { artifacts: art() },
+        xor_pruner: XorPruner { artifacts: art() },
+    };
+    Ok(ids_of(sel.select_for_segment("00001")))
 }
 
 pub fn run(t: &[String]) -> String {
@@ -287,6 +343,30 @@ pub fn run(t: &[String]) -> String {
                 Err(e) => e,
                 Ok(None) => "NONE".into(),
                 Ok(Some(ids)) => {
+                    if ids.is_empty() { "Z -".into() }
+                    else { format!("Z {}", ids.iter().map(|i| i.to_string()).collect::<Vec<_>>().join(",")) }
+                }
+            }
+        }
+        "tsite_select" => {
+            let col = t[1].as_str();
+            let op = op_of(&t[2]);
+            let lit = match String::from_utf8(unhex(&t[4])) { Ok(s) => s, Err(_) => return "BADUTF8".into() };
+            let val = if t[3] == "i" {
+                match lit.parse::<i64>() { Ok(i) => ScalarValue::Int64(i), Err(_) => return "BADINT".into() }
+            } else {
+                ScalarValue::Utf8(lit)
+            };
+            let mut zones: Vec<(u32, Vec<i64>)> = Vec::new();
+            if t[5] != "-" {
+                for z in t[5].split(';') {
+                    let (id, stamps) = z.split_once(':').expect("zone");
+                    zones.push((id.parse().unwrap(), stamps.split(',').map(|s| s.parse().unwrap()).collect()));
+                }
+            }
+            match select_zones(col, &op, &val, &zones) {
+                Err(e) => e,
+                Ok(ids) => {
                     if ids.is_empty() { "Z -".into() }
                     else { format!("Z {}", ids.iter().map(|i| i.to_string()).collect::<Vec<_>>().join(",")) }
                 }
